@@ -5,7 +5,7 @@
    PointIsotherm.pressure() / loading() / loading_at() on real isotherms by tools/props/c15.py on every run. *)
 From Coq Require Import Reals Lra QArith ZArith String List Bool.
 From PG Require Import Lib.Num Lib.Py Gen.UnitsGen1 Units.AdsOracle Gen.UnitsGen2 Units.UnitsSpec Units.C01Theorems
-  Charact.Acquire Gen.AcquireGen Charact.OlsScale Charact.Invariance.
+  Charact.Acquire Gen.AcquireGen Charact.PsdMeso Charact.PsdScale Charact.HkLib Gen.HkGen Charact.HkScale Gen.CharactGen Charact.Window Charact.ListAux Charact.BetLang Charact.BetScale Charact.OlsScale Charact.Invariance.
 Import ListNotations.
 Open Scope string_scope.
 Open Scope R_scope.
@@ -114,9 +114,70 @@ Theorem correlation_unchanged : forall a b d, a <> 0 -> b <> 0 -> den d <> 0 -> 
 Proof. exact r2_scale. Qed.
 Print Assumptions correlation_unchanged.
 
+(* scaling clause for the classical mesopore methods (the recurrences of Charact/PsdMeso.v, tied to psd_meso.py by the correspondence of
+   tools/props/c16.py): multiplying every loading by c multiplies pore volumes, pore areas, the distribution and the cumulative curve by c
+   and leaves the pore widths and the selected window unchanged; lists of any length, every method / geometry / thickness and Kelvin array /
+   limits. No denominator is scaled, so no definedness hypothesis is needed. *)
+Theorem psd_meso_scale : forall (c : R) (vol thick kr : list R) (g : string) (r : psd_result RNum),
+  let scaled r' := p_widths r' = p_widths r /\ p_volumes r' = map (Rmult c) (p_volumes r) /\
+                   p_areas r' = map (Rmult c) (p_areas r) /\ p_dist r' = map (Rmult c) (p_dist r) in
+  (psd_pygapsdh RNum vol thick kr g = Ok r -> exists r', psd_pygapsdh RNum (map (Rmult c) vol) thick kr g = Ok r' /\ scaled r') /\
+  (psd_bjh RNum vol thick kr g = Ok r -> exists r', psd_bjh RNum (map (Rmult c) vol) thick kr g = Ok r' /\ scaled r') /\
+  (psd_dollimore_heal RNum vol thick kr g = Ok r -> exists r', psd_dollimore_heal RNum (map (Rmult c) vol) thick kr g = Ok r' /\ scaled r').
+Proof. exact PsdScale.psd_meso_scale_explicit. Qed.
+Print Assumptions psd_meso_scale.
+Theorem psd_mesoporous_scale : forall (c : R) (method g : string) (pressure vol thick kr : list R) limits r cum w,
+  psd_mesoporous RNum method g pressure vol thick kr limits = Ok (r, cum, w) ->
+  exists r', psd_mesoporous RNum method g pressure (map (Rmult c) vol) thick kr limits = Ok (r', map (Rmult c) cum, w) /\
+    p_widths r' = p_widths r /\ p_volumes r' = map (Rmult c) (p_volumes r) /\
+    p_areas r' = map (Rmult c) (p_areas r) /\ p_dist r' = map (Rmult c) (p_dist r).
+Proof. exact PsdScale.psd_mesoporous_scale_explicit. Qed.
+Print Assumptions psd_mesoporous_scale.
+
+(* scaling clause for area_BET_raw (model Charact/BetLang.v over the GENERATED BET formulas, tied to the code by the C14 correspondence):
+   the selected window - manual or automatic (Rouquerol) - does not depend on a positive scale factor of the loadings (the loop only
+   compares n(1-p) values with each other), and the results scale: n_m and area x c, slope and intercept / c, C and p_m unchanged *)
+Theorem bet_window_scale : forall (c : R) (p l : list R) limits, 0 < c ->
+  bet_window RNum p (map (Rmult c) l) limits = bet_window RNum p l limits.
+Proof. exact BetScale.bet_window_scale. Qed.
+Print Assumptions bet_window_scale.
+Theorem bet_scale : forall (c cs : R) (p l : list R) limits r, 0 < c -> Sorted.StronglySorted Rlt p -> length l = length p ->
+  Forall (fun x => x <> 0) (map2 (roq_transform RNum) p l) ->
+  area_BET_raw RNum sqrt p l cs limits = Ok r -> b_intercept r <> 0 -> b_c r <> 0 ->
+  exists r', area_BET_raw RNum sqrt p (map (Rmult c) l) cs limits = Ok r' /\
+    b_window r' = b_window r /\ b_c r' = b_c r /\ b_pm r' = b_pm r /\
+    b_nm r' = c * b_nm r /\ b_area r' = c * b_area r /\ b_slope r' = b_slope r / c /\ b_intercept r' = b_intercept r / c.
+Proof. exact BetScale.bet_scale. Qed.
+Print Assumptions bet_scale.
+
+(* scaling clause for the Horvath-Kawazoe family (psd_microporous): widths are solved from the pressures (Cheng-Yang variants: and from the
+   coverages l / (1.01 max l), unchanged by a positive factor); the loadings enter through the GENERATED distribution tail only, which is
+   homogeneous of degree 1: distribution and cumulative volume x c, reported widths unchanged. *)
+Theorem hk_tail_scale : forall (c : R) (ads : hkads RNum) (W P Ld : list R),
+  hk_tail RNum ads W P (map (Rmult c) Ld) =
+  (fst (fst (hk_tail RNum ads W P Ld)), map (Rmult c) (snd (fst (hk_tail RNum ads W P Ld))), map (Rmult c) (snd (hk_tail RNum ads W P Ld)))
+  /\ ry_tail RNum ads W P (map (Rmult c) Ld) =
+  (fst (fst (ry_tail RNum ads W P Ld)), map (Rmult c) (snd (fst (ry_tail RNum ads W P Ld))), map (Rmult c) (snd (ry_tail RNum ads W P Ld))).
+Proof. exact HkScale.hk_tail_scale. Qed.
+Print Assumptions hk_tail_scale.
+Theorem hk_cheng_yang_coverage_scale : forall (c : R) (loading : list R), 0 < c -> lmax loading <> 0 ->
+  map (solve_hk_cy_coverage RNum (lmax (map (Rmult c) loading))) (map (Rmult c) loading)
+  = map (solve_hk_cy_coverage RNum (lmax loading)) loading.
+Proof. exact HkScale.coverage_scale. Qed.
+Print Assumptions hk_cheng_yang_coverage_scale.
+
 Example invariance_hypotheses_satisfiable :
   exists (a : adsorbate RNum), a_psat_Pa a (Some 77.355) = Some 101325 /\ ads_at a (Some 77.355) 28.0134 0.0288 0.000165
     /\ 0 < 101325 /\ 77.355 <> 0 /\ 0 < 28.0134 /\ 0 < 0.0288 /\ 0 < 0.000165.
 Proof. exact invariance_hypotheses_satisfiable. Qed.
+Example psd_scale_hypotheses_satisfiable :
+  (exists r, psd_pygapsdh RNum [1; 2; 4] [0; 0; 0] [1; 2; 3] "sphere" = Ok r) /\
+  (exists r, psd_bjh RNum [1; 2; 4] [0; 0; 0] [1; 2; 3] "cylinder" = Ok r) /\
+  (exists r, psd_dollimore_heal RNum [1; 2; 4] [0; 0; 0] [1; 2; 3] "cylinder" = Ok r).
+Proof. exact PsdScale.psd_scale_example. Qed.
+Example rouquerol_loop_ignores_a_tiny_scale_factor : first_decrease RNum (map (Rmult (/ 1000000)) [1; 2; 1.5]) 0 = Some 2%nat.
+Proof. exact BetScale.bet_scale_example. Qed.
+Example hk_scale_hypotheses_satisfiable : lmax [1; 3; 2] <> 0.
+Proof. exact HkScale.hk_scale_hypotheses_satisfiable. Qed.
 Example ols_hypotheses_satisfiable : let d := [(1, 2); (2, 3); (4, 8)] in den d <> 0 /\ nn d <> 0 /\ intercept d <> 0 /\ sxx d <> 0.
 Proof. exact ols_hypotheses_satisfiable. Qed.
